@@ -1,6 +1,9 @@
 package props
 
-import "astverif/ownership"
+import (
+	"astverif/extrarules"
+	"astverif/ownership"
+)
 
 func init() { register("C20", "other", c20) }
 
@@ -34,4 +37,5 @@ func c20(c *Ctx) {
 	ownership.RewindReader(c.P, r, c20Reset)
 	ownership.Globals(c.P, r, "globals")
 	ownership.Redetect(c.P, r, c20Reset, R)
+	extrarules.SharedProgramMap(c.P, r)
 }
